@@ -478,29 +478,8 @@ func (c *Ctx) staticCallees(fn *ssa.Function) []*ssa.Function {
 	return out
 }
 
-// lossSignalsMarkUnusable: same decision as R03.1 (first half), reported under another rule id.
-func (c *Ctx) lossSignalsMarkUnusable(rule string) {
-	p, r := c.P, c.R
-	storeNonNilFlag := func(in ssa.Instruction) bool {
-		st, ok := in.(*ssa.Store)
-		if !ok {
-			return false
-		}
-		fa, ok := st.Addr.(*ssa.FieldAddr)
-		if !ok || fieldOfAddr(fa) != r.FFlag {
-			return false
-		}
-		return !isNilConst(st.Val) && c.isNonNilErrorValue(st.Val, st)
-	}
-	var sigs []FieldUse
-	sigs = append(sigs, usesOfKind(p.uses(r.FIncoming), "close")...)
-	sigs = append(sigs, usesOfKind(p.uses(r.FReadErr), "send", "select-send")...)
-	for _, u := range sigs {
-		construct := fmt.Sprintf("%s: %s on loss-signal channel %s", fname(u.Fn), u.Kind, u.Field.Name())
-		c.check(mustPrecede(u.Fn, storeNonNilFlag, u.At), rule, construct, c.ipos(u.At), "connection marked unusable first",
-			"a loss is signalled without marking the connection unusable: the loop takes it for an orderly remote close and exits for good instead of reconnecting (or accepts calls onto the dead socket)")
-	}
-}
+// lossSignalsMarkUnusable: same decision as R03.1, reported under another rule id.
+func (c *Ctx) lossSignalsMarkUnusable(rule string) { c.lossSignalRule(rule) }
 
 // optionPlumbing: R05.5
 func (c *Ctx) optionPlumbing(rule string) {
